@@ -16,17 +16,37 @@ def canon(v: bytes) -> bytes:
     return R.unfold(v)
 
 
+def h2_converted(snap):
+    """A request line announcing HTTP/2.0 / HTTP/3.0 on an HTTP/1 connection makes the flow an "h2 flow": Http1Client.send
+    converts a copy for the wire — origin-form target, `Host: <authority>` inserted in front when there is no Host field,
+    several Cookie fields joined with "; ".  The recorded flow is compared modulo exactly this conversion (everything else —
+    method, the other fields in order, body, count, order — is compared as for any flow)."""
+    out = dict(snap)
+    fields = [[k, v] for k, v in snap["fields"]]
+    auth = unhx(snap["authority"]) or None
+    if unhx(snap["method"]).upper() != b"CONNECT":
+        out["target"] = snap["path"]
+    cookies = [v for k, v in fields if unhx(k).lower() == b"cookie"]
+    if len(cookies) > 1:
+        first = True; nf = []
+        for k, v in fields:
+            if unhx(k).lower() == b"cookie":
+                if first: nf.append([k, hx(b"; ".join(unhx(c) for c in cookies))]); first = False
+            else: nf.append([k, v])
+        fields = nf
+    if auth and not any(unhx(k).lower() == b"host" for k, v in fields):
+        fields.insert(0, [hx(b"Host"), hx(auth)])
+    out["fields"] = fields
+    return out
+
+
 def req_eq(m, snap, body=True):
     """'same method, target, header fields and body' (C01 sentence 1)"""
+    if unhx(snap["version"]) in (b"HTTP/2.0", b"HTTP/3.0"):
+        snap = h2_converted(snap)
     d = []
     if hx(m["method"]) != snap["method"]: d.append("method")
-    if hx(m["target"]) != snap["target"]:
-        # a request line that says HTTP/2.0 or HTTP/3.0 on an HTTP/1 connection is recorded with its authority (as an
-        # h2 flow would be) and sent in origin-form: same target, other form
-        t = unhx(snap["target"])
-        if not (unhx(snap["version"]) in (b"HTTP/2.0", b"HTTP/3.0") and b"://" in t and
-                b"/" + t.split(b"://", 1)[1].partition(b"/")[2] == m["target"]):
-            d.append("target")
+    if hx(m["target"]) != snap["target"]: d.append("target")
     if [[hx(k), hx(v)] for k, v in m["fields"]] != [[k, hx(canon(unhx(v)))] for k, v in snap["fields"]]: d.append("fields")
     if body and hx(m.get("body", b"")) != (snap["body"] or "-"): d.append("body")
     return d
@@ -84,10 +104,6 @@ def h2_versioned(f):
 def oracle_c01(case, obs):
     fails = []
     flows = obs["flows"]
-    if any(h2_versioned(f) for f in flows):
-        # a request line announcing HTTP/2.0 / HTTP/3.0 on an HTTP/1 connection makes the flow an "h2 flow" that is
-        # converted (copied, Host inserted, authority dropped) for sending: HTTP/2-3 inputs are C06's subject
-        return []
     # ---- requests ----------------------------------------------------------------------------------------------
     # C01: "the bytes mitmproxy forwards upstream are framed so that an independent RFC 9112 parser reads exactly the
     # requests mitmproxy recorded as flows: same number and order, same method, target, header fields and body,
@@ -135,9 +151,6 @@ def oracle_c01(case, obs):
     head_only = None
     if p.stop is not None and p.stop[0] == "incomplete" and p.partial is not None:
         head_only = p.partial; finals.append(head_only)     # head on the wire, body still open
-    if p.stop is not None and p.stop[0] not in ("tunnel",):
-        if not (p.stop[0] == "incomplete" and p.partial is not None and any(f.get("resp_head") and f["resp"] is None for f in flows)):
-            fails.append(f"resp: bytes relayed to the client are not a sequence of RFC 9112 responses: {p.stop}")
     # what the proxy says it sent: per flow, in order
     expected = []
     for f in flows:
@@ -147,6 +160,11 @@ def oracle_c01(case, obs):
             expected.append(("head", f))     # streamed: the head is on the wire, the body never ended
         elif "http_connected" in f["hooks"] or "http_connect_error" in f["hooks"]:
             expected.append(("connect", f))
+    if p.stop is not None and p.stop[0] not in ("tunnel",):
+        # an unfinished message on the client connection is legitimate only as the body of a streamed response that is
+        # still open: the LAST response the proxy started
+        if not (p.stop[0] == "incomplete" and p.partial is not None and expected and expected[-1][0] == "head"):
+            fails.append(f"resp: bytes relayed to the client are not a sequence of RFC 9112 responses: {p.stop}")
     # a 1xx recorded as a flow's response is read by the client as interim: the reference reader then pairs the
     # *next* final response with this request (desync)
     if len(finals) != len([e for e in expected]):
@@ -176,7 +194,7 @@ def oracle_c01(case, obs):
     fw = [f for f in flows if f["req"] is not None and "request" in f["hooks"]]
     for k, (f, r) in enumerate(zip(fw, case.get("resps", []))):
         sp = R.parse_responses(unhx(r["data_hex"]), [unhx(f["req"]["method"])], eof=bool(r.get("close")))
-        if sp.stop is not None and sp.stop[0] == "ambiguous" and not sp.messages and relayed(f):
+        if sp.stop is not None and sp.stop[0] == "ambiguous" and not [m for m in sp.messages if not m["interim"]] and relayed(f):
             # an interim 1xx response is swallowed by the proxy, never relayed: a malformed one is thereby rejected, and
             # the final response that follows is judged on its own
             m1 = re.match(rb"[\r\n]*HTTP/[0-9]\.[0-9] (1[0-9][0-9])(?: |\r?\n)", unhx(r["data_hex"])[sp.rest:])
@@ -186,15 +204,19 @@ def oracle_c01(case, obs):
     # C01: "responses relayed to the client ... each response matched to its own request" — the response recorded (and relayed)
     # for forwarded request k must be the one the server sent in answer to request k (the scripted stream k, read by the
     # reference parser in the context of that request's method); bytes the server sent unasked are never relayed.
-    edited = {e["flow"] for e in case.get("edits", []) if e["at"].startswith("response")}
     for k, (f, r) in enumerate(zip(fw, case.get("resps", []))):
-        if not relayed(f) or flows.index(f) in edited:
+        if not relayed(f):
             continue
         sp = R.parse_responses(unhx(r["data_hex"]), [unhx(f["req"]["method"])], eof=True)
         mine = [m for m in sp.messages if not m["interim"]]
         if not mine:
-            continue
-        d = resp_eq(mine[0], f["resp"], body=mine[0]["framing"] != "eof")
+            continue        # the reference parser cannot read what the server sent for this request: nothing to pair with
+        # an addon edit of this flow's response legitimately changes what it touches — and only that: the status never,
+        # the fields for header edits and for a body replacement (Content-Length), the body for a body replacement
+        ops = {e["op"] for e in case.get("edits", []) if e["flow"] == flows.index(f) and e["at"].startswith("response")}
+        d = resp_eq(mine[0], f["resp"])
+        if ops & {"set", "add", "del", "body"}: d = [x for x in d if x != "fields"]
+        if "body" in ops: d = [x for x in d if x != "body"]
         if d:
             fails.append(f"resp-pairing: the response relayed for request #{k} is not the one the server sent for it (differs in {d})")
     return fails
@@ -611,7 +633,9 @@ class Check(PropertyCheck):
     def _mask(case, text):
         # connection_close() strips tokens with str.strip(): for non-ASCII header bytes (U+0085, U+00A0 …) that is outside the
         # byte-level model; the keep/close verdict is not a C01 observable, so it is masked for such inputs
-        if case["op"] in ("reqhead", "resphead") and any(c >= 0x80 for c in unhx(case["data_hex"])):
+        if case["op"] in ("reqhead", "resphead") and any(
+                ln.split(b":", 1)[0].lower() == b"connection" and any(c >= 0x80 for c in ln)
+                for ln in unhx(case["data_hex"]).replace(b"\r", b"\n").split(b"\n")):
             return re.sub(r" (close|keep) ", " ? ", text)
         return text
 
